@@ -7,5 +7,6 @@ CONSTANTS
   DevEmpty = FALSE
   Disturbs = TRUE
   DevRows = FALSE
+  DevInd = FALSE
 INVARIANTS LengthInv StepOK HistoryFree ActionPrint
 CHECK_DEADLOCK FALSE
